@@ -185,7 +185,7 @@ CLAIMED = {
         technique='Coq proof (boolean case analysis, unbounded) + kernel evaluation of model vs specification on the finite sets + exhaustive implementation-vs-specification comparison',
         design='5/C06'),
     'C12': dict(
-        text='Theorems: (a) for EVERY input and token configuration the tree the parser model produces is well-shaped (lists hold items only, tables rows, '
+        text='Theorems: (a) for EVERY input and token configuration the tree the parser model produces is well-shaped (heading levels in range, every list start agreeing with its first marker, lists hold items only, tables rows, '
              'rows cells, leaf blocks and inline containers hold inline tokens only, quotes/items/documents hold block tokens only; code and HTML blocks hold '
              'exactly one raw text by construction) - proved through the dispatch loop, the list reader and all constructors; (b) for ALL trees, class filters '
              'and depth limits utils.traverse yields exactly the proper descendants that pass filter and limit, each exactly once, with depth = distance and the '
